@@ -58,6 +58,20 @@ def h_c03(eng):
     _report(eng, type(q.magnitude) is type((fr.Quantity(3, "m") / fr.Quantity(2, "s")).magnitude), "fraction-registry:int-magnitudes:in-place-division-gives-a-float")
 
 
+def h_c04(eng):
+    from pint.util import UnitsContainer
+
+    # a container equals another exactly when every unit has the same exponent: a zero exponent
+    # given to the constructor is no entry, and a string operand counts with its number
+    r = _outcome(lambda: UnitsContainer({"m": 0}) == UnitsContainer())
+    _report(eng, r == ("ok", True), "constructor:zero-exponent-entry-kept")
+    r = _outcome(lambda: UnitsContainer({"m": 1}) == "2*m")
+    _report(eng, r == ("ok", False), "eq:string-operand-scale-ignored")
+    ureg = regs.float_default()
+    r = _outcome(lambda: ureg.Unit("m") ** np.array([2]))
+    _report(eng, r[0] in ("ok", "TypeError"), "pow:array-exponent-raises-ValueError-inside-the-container")
+
+
 def h_c05(eng):
     ureg = regs.float_default()
     Qy = ureg.Quantity
